@@ -347,6 +347,23 @@ func runSpec(sp Spec) J {
 	}
 	if len(sp.Pre) > 0 {
 		out["pre"] = sp.Pre
+		// the earlier statements may have inserted data: the model sees what the store holds NOW
+		var nd []interface{}
+		for i := range sp.Graphs {
+			gr, err := st.Graph(ctx, graphName(sp.Names, i))
+			if err != nil {
+				out["result"] = J{"kind": "harness", "msg": err.Error()}
+				return out
+			}
+			ch := make(chan *triple.Triple, 4096)
+			go func() { gr.Triples(ctx, storage.DefaultLookup, ch) }()
+			gd := []interface{}{}
+			for t := range ch {
+				gd = append(gd, jTriple(t))
+			}
+			nd = append(nd, gd)
+		}
+		out["graphs"] = nd
 	}
 	stm, k := parse(sp.Query)
 	if stm == nil {
